@@ -102,7 +102,7 @@ theorem parseTlv_rest_lt {vlt : Vlt} {words : Sl} {t : Tlv} {rest : Sl}
 `step` is the loop body; its `Bool` says whether the loop goes on (`false` = the body `return`ed). -/
 def forEach {σ : Type} (vlt : Vlt) (step : Tlv → σ → Out (σ × Bool)) (words : Sl) (s : σ) : Out σ :=
   if words.len = 0 then .ok s else
-  match h : parseTlv vlt words with
+  match _h : parseTlv vlt words with
   | .ok (tlv, rest) =>
     match step tlv s with
     | .ok (s', true) => forEach vlt step rest s'
@@ -116,7 +116,7 @@ def forEach {σ : Type} (vlt : Vlt) (step : Tlv → σ → Out (σ × Bool)) (wo
   | .ub m => .ub m
   | .diverge => .diverge
 termination_by words.len
-decreasing_by exact parseTlv_rest_lt h
+decreasing_by exact parseTlv_rest_lt _h
 
 /-- src: version_info.rs:Visit (the `&mut self` is threaded as `σ`) -/
 structure Visitor (σ : Type) where
